@@ -148,7 +148,8 @@ def gen_c10(seed, ptr):
                 fields.append("    pub f%d: %s" % (f, names[j]))
                 byvalue[i].add(j)
             elif k < 0.5:
-                fields.append("    pub f%d: [%s; %d]" % (f, names[j], rng.randint(1, 3)))
+                # a zero-length array still embeds its element type by value (it has no size until the element has one)
+                fields.append("    pub f%d: [%s; %d]" % (f, names[j], rng.choice([0, 0, 1, 2, 3])))
                 byvalue[i].add(j)
             elif k < 0.6 and kind[j] == "type":
                 fields.append("    #[base] pub f%d: %s" % (f, names[j]))
